@@ -19,11 +19,14 @@ var collDS = vkit.NewCollector("C19", "TestRoundTripDurable", ruleRT)
 var collHostile = vkit.NewCollector("C19", "TestHostile", ruleHostile)
 var collFuzz = vkit.NewCollector("C19", "FuzzApply", "native go fuzzing (coverage-guided) of the bytes given to Apply, seeded with the repository's conformance documents; same oracle as TestHostile")
 
+var collNull = vkit.NewCollector("C19", "TestNullEntities", "1-8 insert/update/delete messages built by the helper constructors for entities whose JSON encoding can be the literal null (a pointer, a map, a slice, a nullable wrapper with its own MarshalJSON), null or not, published through a bus with a memory store and replayed into a materializer with every combination of strict schema and the OnError/OnReset/OnSnapshot options. Oracle: the replay succeeds and every collection holds exactly the last written value of every key (null entities included). Non-trivial = a null-encoding entity was materialized.")
+
 func TestMain(m *testing.M) { vkit.Main(m) }
 
 func TestRoundTripMemory(t *testing.T)  { vkit.Check(t, collMem, GenRT("memory"), RunRT) }
 func TestRoundTripSQLite(t *testing.T)  { vkit.Check(t, collSQL, GenRT("sqlite"), RunRT) }
 func TestRoundTripDurable(t *testing.T) { vkit.Check(t, collDS, GenRT("durable"), RunRT) }
+func TestNullEntities(t *testing.T)     { vkit.Check(t, collNull, GenNull, RunNull) }
 func TestHostile(t *testing.T)          { vkit.Check(t, collHostile, GenHostile, RunHostile) }
 
 // FuzzApply is the coverage-guided variant (thorough tier only).
@@ -50,5 +53,5 @@ func FuzzApply(f *testing.F) {
 func TestReplay(t *testing.T) {
 	r := vkit.NeedReplay(t)
 	_ = vkit.ReplayCase(t, r, collMem, RunRT) || vkit.ReplayCase(t, r, collSQL, RunRT) || vkit.ReplayCase(t, r, collDS, RunRT) ||
-		vkit.ReplayCase(t, r, collHostile, RunHostile) || vkit.ReplayCase(t, r, collFuzz, RunHostile)
+		vkit.ReplayCase(t, r, collHostile, RunHostile) || vkit.ReplayCase(t, r, collNull, RunNull) || vkit.ReplayCase(t, r, collFuzz, RunHostile)
 }
